@@ -350,7 +350,7 @@ def run_machine(tier, hseed, n_examples, account, process, state):
 
         def _context(self, data):
             mode = data.draw(st.sampled_from(["extend", "extend", "sibling", "prefix", "fresh", "repeat"]))
-            toks = self.V + ([EOS] if data.draw(st.integers(0, 9)) == 0 and self.sim.kind in IS_LM else [])
+            toks = self.V + ([EOS] if data.draw(st.integers(0, 9)) < 3 and self.sim.kind in IS_LM else [])
             base = self.contexts[data.draw(st.integers(0, len(self.contexts) - 1))]
             if not toks:
                 return ()
@@ -393,9 +393,13 @@ def run_machine(tier, hseed, n_examples, account, process, state):
             self.swept = True
             n = 2 if len(self.V) <= 2 else data.draw(st.integers(1, 2))
             ctxs = [list(c) for c in gen.all_strings(self.V, n)]
+            if self.sim.kind in IS_LM and data.draw(st.booleans()):
+                # complete sentences (context + EOS) are contexts too
+                ctxs += [c + [EOS] for c in ctxs if len(c) <= 1]
             for i in data.draw(st.permutations(range(len(ctxs)))):
                 self.contexts.append(tuple(ctxs[i]))
-                self._do([data.draw(st.sampled_from(["p_next", "p_next", "call"])), ctxs[i]])
+                op = "p_next" if EOS in ctxs[i] else data.draw(st.sampled_from(["p_next", "p_next", "call"]))
+                self._do([op, ctxs[i]])
 
         @rule(data=st.data())
         def pure(self, data):
